@@ -45,6 +45,11 @@ struct LoopCfg {
 	ensures: Vec<Clause>,
 	#[serde(default)]
 	decreases: Option<String>,
+	/// L20: `for PAT in X.iter() { B }` is emitted as the index loop
+	/// `{ let mut vx_iN: usize = 0; while vx_iN < X.len() { let PAT = &X[vx_iN]; vx_iN = vx_iN + 1; B } }`
+	/// (Verus' `for` does not support `continue`; `while` does). Only for `X.iter()` on a Vec/slice place expression.
+	#[serde(default)]
+	index_loop: bool,
 }
 
 #[derive(Deserialize, Clone, Debug, Default)]
@@ -729,6 +734,34 @@ impl<'ast, 'c> Visit<'ast> for FnVisitor<'c> {
 		self.loops_seen.push((ord, ws, bs, we));
 		self.loop_bodies.push((ord, bs + 1, be - 1));
 		let cfg = self.cfg.loops.iter().find(|l| l.ordinal == ord).cloned();
+		if let Some(lc) = cfg.clone().filter(|l| l.index_loop) {
+			let recv = match &*fl.expr {
+				syn::Expr::MethodCall(mc) if mc.method == "iter" && mc.args.is_empty() => br(mc.receiver.span()),
+				_ => die(&format!("{}: loop {}: index_loop needs `for PAT in X.iter()`", self.fname, ord)),
+			};
+			let (ps, pe) = br(fl.pat.span());
+			let iv = format!("vx_i{}", ord);
+			let recv_text = oneline(&self.src[recv.0..recv.1]);
+			self.push(ws, bs, vec![
+				Part::Text(format!("{{ let mut {}: usize = 0;\nwhile {} < ", iv, iv)),
+				Part::Src(recv.0, recv.1),
+				Part::Text(".len()\n".to_string()),
+			], "L20");
+			let mut inv = vec![Clause::Plain(format!("{} <= {}.len()", iv, recv_text))];
+			inv.extend(lc.invariant.iter().cloned());
+			let mut parts = self.clause_parts("invariant", "invariant", &inv, "        ");
+			let d = lc.decreases.clone().unwrap_or(format!("{}.len() - {}", recv_text, iv));
+			parts.push(Part::Text(format!("\n        decreases {},\n    ", d)));
+			self.push(bs, bs, parts, "A2");
+			self.push(bs + 1, bs + 1, vec![
+				Part::Text("\nlet ".to_string()), Part::Src(ps, pe), Part::Text(" = &".to_string()), Part::Src(recv.0, recv.1),
+				Part::Text(format!("[{}]; {} = {} + 1;\n", iv, iv, iv)),
+			], "L20");
+			self.push(we, we, vec![Part::Text(" }".to_string())], "L20");
+			self.push(we, we, vec![Part::Text(";".to_string())], "A2");
+			syn::visit::visit_expr_for_loop(self, fl);
+			return;
+		}
 		if let Some(lc) = cfg {
 			if let Some(b) = &lc.binder {
 				let (es, _) = br(fl.expr.span());
